@@ -1,5 +1,5 @@
 (* Props/C09.v — "Source positions point at the source they describe": property theorems only. *)
-From Verif Require Import Base.Str Syntax.Pos Syntax.Reader Proofs.PosProofs.
+From Verif Require Import Base.Str Syntax.Pos Syntax.Reader Proofs.PosProofs Proofs.ReaderProofs Proofs.LineColProofs.
 Open Scope N_scope.
 
 (* C09_pos_pack, clause 1: below the limits NewPos is read back exactly by Offset/Line/Col. *)
@@ -46,20 +46,36 @@ Example C09_pos_pack_example :
   (Line (NewPos 5 262144 7), Col (NewPos 5 6 16384), Offset (NewPos 4294967290 1 1)) = (0, 0, 4294967284).
 Proof. vm_compute. split; reflexivity. Qed.
 
-(* C09_linecol — every position the reader hands out is pos_of_offset of its offset:
-     forall input obq obqd, Forall (fun o => match o with ORune _ _ p | OErr p => pos_agrees input p = true end)
-                                   (atrace obq obqd input)
-   (and by C07_rune_stream the same for every schedule).  NOT PROVED in this development (open item):
-   it was REFUTED by the model of the unrepaired code (after backslash-CR-LF every column of the next
-   line was one too large, backslash-LF had the offset of LF with the column of the backslash, rune()
-   after EOF moved the column, the invalid-UTF-8 error used the previous rune's width) — repaired by
-   fix: commits d9731e1, bfde4b1, 478c986 (known_findings.jsonl).  On the repaired model it is
-   evaluated in the kernel on those witnesses (below), compared with the real code on every run by the
-   C07 code leg (raw nextPos after every operation) and tested directly by the C07 harness on every
-   generated reader case (clause linecol_disagrees_with_offset) and by the tree search of this check. *)
-Definition obs_ok (input : str) (o : obs) : bool :=
-  match o with ORune _ _ p => pos_agrees input p | OErr p => pos_agrees input p end.
+(* C09_linecol — every position the reader hands out (the nextPos of every rune incl. the pseudo-runes
+   escNewl and runeEOF, and the position of the "invalid UTF-8 encoding" error) is
+   pos_of_offset input offset = (offset, 1 + newlines before it, 1 + bytes since the last newline),
+   with 0 <= offset <= len(input): for EVERY input (any bytes), every schedule, EOF style, buffer size
+   >= 4 and openBquotes/openBquoteDbls.  No known-finding class is excluded: the four reader-level
+   defects that refuted this on the unrepaired code (after backslash-CR-LF every column of the next
+   line one too large; backslash-LF with the offset of LF but the column of the backslash; rune() after
+   EOF moving the column; the invalid-UTF-8 error using the previous rune's width) are repaired by the
+   fix: commits d9731e1, bfde4b1, 478c986, d3fa48b (known_findings.jsonl).  The open C09 findings
+   (KF-C09-1..7) are all ABOVE the reader: positions the parser derives with posAddCol / End() methods;
+   they are outside this theorem and are validated per tree by the search. *)
+Theorem C09_linecol : forall bufsz obq obqd input sched eager, (4 <= bufsz)%nat ->
+  Forall (fun o => obs_ok input o = true) (trace bufsz obq obqd input sched eager).
+Proof. exact trace_linecol. Qed.
+Print Assumptions C09_linecol.
 
+(* the same on the Spec reader (no buffer) *)
+Theorem C09_linecol_spec : forall input obq obqd,
+  Forall (fun o => obs_ok input o = true) (atrace obq obqd input).
+Proof. exact atrace_linecol. Qed.
+Print Assumptions C09_linecol_spec.
+
+(* and the packed Pos that nextPos returns reads back exactly that triple below the limits *)
+Theorem C09_nextPos_exact : forall o l c : Z,
+  (0 <= o <= Z.of_N offsetMax)%Z -> (0 <= l <= Z.of_N lineMax)%Z -> (0 <= c <= Z.of_N colMax)%Z ->
+  Z.of_N (Offset (next_pos o l c)) = o /\ Z.of_N (Line (next_pos o l c)) = l /\ Z.of_N (Col (next_pos o l c)) = c.
+Proof. exact next_pos_exact. Qed.
+Print Assumptions C09_nextPos_exact.
+
+(* non-vacuity: the former witnesses, on the Spec reader and under a schedule with empty reads and data+EOF *)
 Example C09_linecol_fixed_witnesses :
   forallb (fun i => forallb (obs_ok i) (atrace 0 0 i) && forallb (obs_ok i) (trace 1024 0 0 i [1;1;0;2;1]%nat true))
     [ [36;92;13;10;97];                      (* $\<CR><LF>a *)
